@@ -17,7 +17,8 @@
     Go code; needed wherever two different sums are compared, see [C06_minority_needs_nowrap_refuted]).
 
     A replayed header (OpReplay) is a different cause of a round change and is excluded from the vote
-    theorems below by [vote_op]; what it does is stated in [C06_replay_goes_to_the_replayed_round]. *)
+    theorems below by [vote_op]; what it does is stated in [C06_replay_goes_to_the_replayed_round] and
+    [C06_rejected_replay_leaves_the_state_unchanged]. *)
 From Coq Require Import List NArith.
 From GV Require Import Base.Ints Gen.Math Gen.Kernel Model.Mirror
   Proofs.MirrorAuth Proofs.MirrorChain Proofs.MirrorCert Proofs.MirrorPower Proofs.MirrorPowerWitness
@@ -203,26 +204,34 @@ Theorem C06_minority_needs_nowrap_refuted :
 Proof. exact minority_without_guard_refuted. Qed.
 Print Assumptions C06_minority_needs_nowrap_refuted.
 
-(** Replayed headers.  A replayed header of another height changes nothing (result 1).  One of the
-    voting height must be for the voting round or a later one (an earlier one is a panic site) and, if
-    the height stays, leaves the mirror in the replayed commit round, or one past it when the merged
-    precommits make the kernel advance (only on acceptance, result 0). *)
-Theorem C06_replay_goes_to_the_replayed_round : forall ih ivs s0 hd cp s' res,
-  cinv ih ivs s0 -> hd_height hd + 1 < two64 -> handle_replay s0 hd cp = Ok (s', res) ->
-  (hd_height hd <> v_h (k_vot s0) /\ s' = s0 /\ res = 1) \/
-  (hd_height hd = v_h (k_vot s0) /\ v_r (k_vot s0) <= cp_round cp /\
-   (v_h (k_vot s') = v_h (k_vot s0) ->
-      v_r (k_vot s') = cp_round cp \/ (res = 0 /\ v_r (k_vot s') = wrap32 (cp_round cp + 1)))).
-Proof. exact replay_round. Qed.
-Print Assumptions C06_replay_goes_to_the_replayed_round.
+(** Replayed headers.
+    REPAIRED IN THE GO CODE (handleReplayedHeader now validates the header and its commit proof against
+    the round it would jump to BEFORE it changes anything): earlier versions of this file proved
+    "a rejected replay still moves the round" by a witness; that witness is gone and the opposite holds
+    for EVERY state: a replayed header that is not accepted (result 1 = other height, 2 = validation
+    error) is the identity on the mirror state. *)
+Theorem C06_rejected_replay_leaves_the_state_unchanged : forall s0 hd cp s' res,
+  handle_replay s0 hd cp = Ok (s', res) -> res <> 0 -> s' = s0.
+Proof. exact replay_rejected_identity. Qed.
+Print Assumptions C06_rejected_replay_leaves_the_state_unchanged.
 
-(** ... and it does so BEFORE the header and its commit proof are validated: a replayed header that is
-    rejected as invalid (result 2) and carries no signature at all still moves the voting round
-    (kernel.go handleReplayedHeader: the jumpVotingRound loop precedes every check). *)
-Theorem C06_rejected_replay_still_moves_the_round :
-  exists ih ivs s x cp s',
-    1 <= ih /\ vs_ok ivs = true /\ reachable_b ih ivs s /\ op_bounded (OpReplay x cp) /\
-    step s (OpReplay x cp) = Ok (s', 2) /\ cp_proofs cp = [] /\
-    v_h (k_vot s') = v_h (k_vot s) /\ v_r (k_vot s) = 0 /\ v_r (k_vot s') = 5.
-Proof. exact replay_moves_round_without_certificate. Qed.
-Print Assumptions C06_rejected_replay_still_moves_the_round.
+(** An accepted replayed header (result 0) is for the voting height and for the voting round or a later
+    one (an earlier one is a panic site), CARRIES A CERTIFICATE - a proof [hp] of genuine precommits of
+    the voting view's validators for exactly (height, replayed round, the header's hash) whose power is at
+    least the Byzantine majority of that validator set (replayed signatures merged with those already held
+    for that round) - and, if the height stays, leaves the mirror in the replayed commit round, or one
+    past it when the merged precommits make the kernel advance.  This is the other cause of a round
+    change, excluded from (2)/(3) by [vote_op]. *)
+Theorem C06_replay_goes_to_the_replayed_round : forall ih ivs s0 hd cp s' res,
+  1 <= ih -> vs_ok ivs = true -> reachable_b ih ivs s0 -> hd_height hd + 1 < two64 ->
+  step s0 (OpReplay hd cp) = Ok (s', res) ->
+  (res <> 0 /\ s' = s0) \/
+  (res = 0 /\ hd_height hd = v_h (k_vot s0) /\ v_r (k_vot s0) <= cp_round cp /\
+   (exists hp maj,
+      auth_proof (vs_keys (v_vals (k_vot s0))) KPrecommit (hd_height hd) (cp_round cp) (hd_hash hd) hp /\
+      byz_majority (sum_pows (vs_pows (v_vals (k_vot s0)))) = Ok maj /\
+      maj <= proof_power (vs_pows (v_vals (k_vot s0))) hp) /\
+   (v_h (k_vot s') = v_h (k_vot s0) ->
+      v_r (k_vot s') = cp_round cp \/ v_r (k_vot s') = wrap32 (cp_round cp + 1))).
+Proof. exact replay_round_reachable. Qed.
+Print Assumptions C06_replay_goes_to_the_replayed_round.
